@@ -315,7 +315,9 @@ func c17Extra(tier string, seed int64) *runner.ExtraResult {
 		}
 	}
 	for _, kind := range podKinds {
+		// (for this part two more sources: same namespace and selector as w1 / w2 under names that sort around the others)
 		kind, ws := kind, c17Workloads(kind)
+		ws = append(ws, W{NS: "a", Name: "w21", Sel: ws[0].Sel}, W{NS: "a", Name: "w0", Sel: ws[1].Sel})
 		pick := func(ix []int) []W {
 			var out []W
 			for _, i := range ix {
